@@ -129,6 +129,9 @@ func NParams() int {
 	return len(s.Params)
 }
 
+// Pt is a host struct type used as a panic value.
+type Pt struct{ X, Y int }
+
 // Boom panics with the given value on the host side of the Use seam.
 func Boom(v interface{}) { panic(v) }
 
@@ -146,5 +149,6 @@ var Symbols = map[string]map[string]reflect.Value{
 		"NParams": reflect.ValueOf(NParams),
 		"Boom":    reflect.ValueOf(Boom),
 		"BoomStr": reflect.ValueOf(BoomStr),
+		"Pt":      reflect.ValueOf((*Pt)(nil)),
 	},
 }
